@@ -138,6 +138,30 @@ class Seq(object):
             if sh is None:
                 return None
             return (sh[0], ("dlres", sh[1]))
+        if isinstance(e, ast.Call) and isinstance(e.func, ast.Attribute) and e.func.attr in ("values", "keys", "items") and not e.args and isinstance(
+                e.func.value, ast.Name):
+            # the views of a mapping that ONE loop of this function walks with `.items()`: the i-th value / key belongs to
+            # the i-th iteration of that loop, provided the mapping is not changed from that loop on
+            d = e.func.value.id
+            walkers = [lp for lp in self.loops if unparse(lp.stmt.iter) == "%s.items()" % d and isinstance(lp.stmt.target, ast.Tuple) and len(
+                lp.stmt.target.elts) == 2 and all(isinstance(x, ast.Name) for x in lp.stmt.target.elts)]
+            if len(walkers) != 1:
+                return None
+            lp = walkers[0]
+            after = self.cfg.reach([lp.id], include_src=True)
+            for i in after:
+                n = self.cfg.nodes[i]
+                st = n.stmt
+                if n.kind == "stmt" and isinstance(st, (ast.Assign, ast.AugAssign, ast.Delete)):
+                    tg = st.targets if isinstance(st, (ast.Assign, ast.Delete)) else [st.target]
+                    if any((isinstance(t, ast.Subscript) and unparse(t.value) == d) or (isinstance(t, ast.Name) and t.id == d) for t in tg):
+                        return None
+                for c in n.calls():
+                    if isinstance(c.func, ast.Attribute) and unparse(c.func.value) == d and c.func.attr in ("pop", "popitem", "clear", "update", "setdefault", "__setitem__"):
+                        return None
+            k, v = [x.id for x in lp.stmt.target.elts]
+            elem = {"values": ("iter", lp.id, v), "keys": ("iter", lp.id, k), "items": ("tuple", [("iter", lp.id, k), ("iter", lp.id, v)])}[e.func.attr]
+            return (lp.id, elem)
         if isinstance(e, (ast.ListComp, ast.GeneratorExp)) and len(e.generators) == 1 and not e.generators[0].ifs:
             g = e.generators[0]
             sh = self.shape_of_expr(g.iter)
